@@ -502,6 +502,15 @@ func TestReplay(t *testing.T) {
 	msg := ""
 	if rf.Property != "C20" {
 		msg = "replay file is for property " + rf.Property + ", this engine decides C20"
+	} else if rf.Part == "session" {
+		var ss Session
+		if err := json.Unmarshal(rf.Scenario, &ss); err != nil {
+			msg = "bad session: " + err.Error()
+		} else if len(ss.Configs) == 0 {
+			msg = "bad session: no configuration"
+		} else if _, _, rerr := runSessionCase(t, &ss); rerr != nil {
+			msg = rerr.Error()
+		}
 	} else {
 		var sc Scenario
 		if err := json.Unmarshal(rf.Scenario, &sc); err != nil {
